@@ -76,6 +76,8 @@ def make_frame(stg, g, seed=None, **kw):
     df_, dt_, f1_ = (-g['df'] if g.get('neg_df') else g['df']), g['dt'], g['fch1']
     if g.get('int_geom'):
         df_, dt_, f1_ = int(df_), int(dt_), int(f1_)
+    if g.get('cls') == 'spectrum':
+        return stg.Spectrum(fchans=g['fchans'], df=df_, dt=dt_, fch1=f1_, ascending=g['asc'], seed=seed, t_start=1.7e9, **kw)
     return stg.Frame(fchans=g['fchans'], tchans=g['tchans'], df=df_, dt=dt_, fch1=f1_, ascending=g['asc'], seed=seed, t_start=1.7e9, **kw)
 
 
